@@ -89,7 +89,12 @@ type RenderOpt struct {
 	BlankAfter     int  // blank lines after the last paragraph
 	BlankBetween   int  // EXTRA blank lines between paragraphs (0 = exactly one)
 	CommentAt      int  // 0 = none; p>0 = a comment line inserted before physical line p-1 (p-1 == number of lines: at the end)
+	CommentText    int  // index into D822Comments
 }
+
+// D822Comments are the comment lines inserted by RenderOpt.CommentAt: with text and a colon, bare, two characters,
+// '#' followed by a blank only, and '#' followed by a tab and another '#'.
+var D822Comments = []string{"# a comment: with a colon", "#", "#x", "# ", "#\t#"}
 
 // PhysicalLines returns the document's lines (without terminators) under opt, before comment insertion.
 func (d DDoc) PhysicalLines(opt RenderOpt) []string {
@@ -139,7 +144,7 @@ func (d DDoc) Render(opt RenderOpt) string {
 		if p > len(lines) {
 			p = len(lines)
 		}
-		lines = append(lines[:p:p], append([]string{"# a comment: with a colon"}, lines[p:]...)...)
+		lines = append(lines[:p:p], append([]string{D822Comments[opt.CommentText%len(D822Comments)]}, lines[p:]...)...)
 	}
 	eol := "\n"
 	if opt.CRLF {
@@ -162,6 +167,7 @@ var D822Firsts = []string{"", "v", "v w", "v: w", "#v", "é\tz", ".", "3-8% of %
 var D822ContLines = []DLine{
 	{' ', "x"}, {'\t', "x"}, {' ', " indented"}, {'\t', " indented"}, {' ', "."}, {'\t', "."}, {' ', "x  "}, {' ', "y: z"},
 	{' ', "#include <x>"}, {' ', "\ttabbed"}, {' ', "100%d %"}, {' ', "Ren\xe9 \xff"}, {' ', ".."}, {' ', ". ."},
+	{' ', " ."}, {'\t', "\t."}, // an indented dot is text (the '.' rule is about the line " ." only)
 }
 
 // D822FieldShapes: every first line x every sequence of 0..maxCont continuation lines.
